@@ -2,7 +2,7 @@
 (* step st kind inputs = (st', expected observations).                                   *)
 (* Kinds flagged by is_monitor have inputs that are *observed* on the implementation and  *)
 (* a constant expected output: a mismatch there is a property violation on the real code. *)
-From VD Require Import Base.Words Model.Layout Model.Queue Extract.QueueIO Extract.QueueMon Extract.OwningIO Extract.MmioIO Model.PciBus Extract.PciBusIO Model.Blk Extract.BlkIO Model.Console Extract.ConsoleIO Extract.ConfigIO Extract.NetIO Extract.ConnMgrIO.
+From VD Require Import Base.Words Model.Layout Model.Queue Extract.QueueIO Extract.QueueMon Extract.OwningIO Extract.MmioIO Model.PciBus Extract.PciBusIO Model.Blk Extract.BlkIO Model.Console Extract.ConsoleIO Extract.ConfigIO Extract.NetIO Extract.ConnMgrIO Extract.VsockIO.
 
 Inductive mstate :=
 | MNone
@@ -12,7 +12,8 @@ Inductive mstate :=
 | MBlk (b : option bstate)
 | MConsole (c : option cio)
 | MNet (n : option netst)
-| MConnMgr (c : option cmio).
+| MConnMgr (c : option cmio)
+| MVsock (s : option vstate).
 
 Definition bad : list N := [77777].
 
@@ -20,7 +21,7 @@ Definition bad : list N := [77777].
 Definition is_diag (k : N) : bool := (k =? 140).
 
 Definition is_monitor (k : N) : bool :=
-  (k =? 1) || (k =? 2) || (k =? 612) || ((150 <=? k) && (k <? 170)) || (k =? 1950) || (k =? 1951) || mmio_is_monitor k || pci_is_monitor k || blk_is_monitor k || console_is_monitor k || config_is_monitor k || net_is_monitor k || connmgr_is_monitor k.
+  (k =? 1) || (k =? 2) || (k =? 612) || ((150 <=? k) && (k <? 170)) || (k =? 1950) || (k =? 1951) || mmio_is_monitor k || pci_is_monitor k || blk_is_monitor k || console_is_monitor k || config_is_monitor k || net_is_monitor k || connmgr_is_monitor k || vsock_is_monitor k.
 
 Definition dir_reads (d : N) : bool := (d =? 0) || (d =? 2).
 Definition dir_writes (d : N) : bool := (d =? 1) || (d =? 2).
@@ -70,6 +71,10 @@ Definition step (st : mstate) (k : N) (ins : list N) : mstate * list N :=
   else if (1800 <=? k) && (k <? 1900) then
     (let c := match st with MConnMgr c => c | _ => None end in
      let '(c', o) := connmgr_step c k ins in (MConnMgr c', o))
+  (* ---- C17: vsock credit and ring buffer (kinds 1700..1799) ---- *)
+  else if (1700 <=? k) && (k <? 1800) then
+    (let s := match st with MVsock s => s | _ => None end in
+     let '(s', o) := vsock_step s k ins in (MVsock s', o))
   else if k =? 1950 then (st, [b2n (mon_owning ins)])
   else if k =? 1951 then (st, [b2n (mon_input ins)])
   else if (1900 <=? k) && (k <? 1950) then
